@@ -531,6 +531,24 @@ Theorem C02_teardown_run_exists :
 Proof. exact teardown_nonvacuous. Qed.
 Print Assumptions C02_teardown_run_exists.
 
+(* ---------------- a connection joins an existing bridge: the open-ack precedes every tunnel byte ---------------- *)
+
+(* handleExistingBridge writes the TunnelOpenAck before it attaches the joining connection (the attach wakes the copy loop, which
+   shares no lock with the ack's WritePacket): for every schedule of the handler and the copy loop and any number of pending
+   chunks, whatever is on the joining connection's wire starts with the ack *)
+Theorem C02_open_ack_precedes_tunnel_bytes :
+  forall n (sched : list nat),
+  j_wire (fst (join_run AckThenAttach n sched)) = [] \/
+  exists rest, j_wire (fst (join_run AckThenAttach n sched)) = true :: rest.
+Proof. exact ack_precedes_tunnel_bytes. Qed.
+Print Assumptions C02_open_ack_precedes_tunnel_bytes.
+
+(* refuted: attach first, ack afterwards — the woken copy loop can put tunnel bytes in front of the ack *)
+Theorem C02_attach_then_ack_payload_first_refuted :
+  exists sched rest, j_wire (fst (join_run AttachThenAck 2 sched)) = false :: rest.
+Proof. exact attach_then_ack_payload_first_refuted. Qed.
+Print Assumptions C02_attach_then_ack_payload_first_refuted.
+
 (* ---------------- (4) the server forgets the tunnel ---------------- *)
 
 (* registry_forgets: any number of startSourceBridge callers, any tunnel ids (duplicates included), every interleaving
